@@ -405,9 +405,7 @@ def filter_citations(citations: List[CitationBase]) -> List[CitationBase]:
     citations = list(
         {citation.span(): citation for citation in citations}.values()
     )
-    sorted_citations = sorted(
-        citations, key=lambda citation: citation.full_span()
-    )
+    sorted_citations = sorted(citations, key=lambda citation: citation.span())
     filtered_citations: List[CitationBase] = [sorted_citations[0]]
 
     for citation in sorted_citations[1:]:
@@ -418,7 +416,17 @@ def filter_citations(citations: List[CitationBase]) -> List[CitationBase]:
         if is_overlapping:
             # In cases overlap, prefer anything to a reference citation
             if isinstance(last_citation, ReferenceCitation):
-                filtered_citations.pop(-1)
+                # the full span of this citation may reach back over several
+                # reference citations (e.g. both party names)
+                while (
+                    filtered_citations
+                    and isinstance(filtered_citations[-1], ReferenceCitation)
+                    and overlapping_citations(
+                        citation.full_span(),
+                        filtered_citations[-1].full_span(),
+                    )
+                ):
+                    filtered_citations.pop(-1)
                 filtered_citations.append(citation)
                 continue
             if isinstance(citation, ReferenceCitation):
